@@ -90,6 +90,7 @@ Revert(s0, r) == IF r.ok THEN r.s ELSE s0
    operators that consult pool_value fail and the others (Swap) do not. *)
 MCfg(c) ==
   [feePos |-> c.s_pos, feeNeg |-> c.s_neg, feeRecv |-> c.s_recv,
+   feeDisc |-> -1,                         \* the driver's markets configure no swap fee discount factor
    impPos |-> c.si_pos, impNeg |-> c.si_neg, impExp |-> c.si_exp \div Unit,
    div |-> c.divisor, maxPool |-> c.max_pool_amount, maxPoolValue |-> c.max_pool_value,
    reserveFactor |-> c.reserve, pnlDeposit |-> c.pnl_deposit, pnlWithdrawal |-> c.pnl_withdrawal,
